@@ -19,6 +19,8 @@ let parse_decl w =
   | 'F' | 'B' -> Some (KFunc, n) | 'D' -> Some (KData, n) | 'P' -> Some (KProto, n)
   | _ -> None
 
+let is_quiet s = match words s with "K" :: _ :: ["q"] -> true | _ -> false
+
 let parse_op s =
   match words s with
   | [] -> None
@@ -83,13 +85,14 @@ let show_res res =
       Printf.sprintf "n%d:%d" (int_of_nat n) (int_of_nat a)) res) ^ "]"
 
 let run_history line =
-  let ops = List.filter_map parse_op (String.split_on_char ';' line) in
+  let ops = List.filter_map (fun s -> match parse_op s with Some o -> Some (o, is_quiet s) | None -> None)
+      (String.split_on_char ';' line) in
   let b = Buffer.create 256 in
   let st = ref init in
   let nulled = ref [] in   (* modules that went through a NULL-interface link *)
   let first = ref true in
   (try
-     List.iter (fun o ->
+     List.iter (fun (o, quiet) ->
          let before = !st in
          let (s', out) = step (not pinned) !st o in
          st := s';
@@ -108,7 +111,7 @@ let run_history line =
          | OLinkFailed res -> Buffer.add_string b ("E:undeclared_op_ref " ^ show_res res)
          | OLinked (_, res) ->
            Buffer.add_string b ("ok " ^ show_res res);
-           List.iter (fun (id, bs) ->
+           if not quiet then List.iter (fun (id, bs) ->
                Buffer.add_string b (Printf.sprintf " m%d{%s}" (int_of_nat id)
                                       (String.concat " " (List.map (show_binding ~nulled:(List.mem id !nulled) live true) bs))))
              s'.linked
